@@ -209,8 +209,8 @@ template <class Db> void run_db(const Args& a, Counters& c, int& item) {
   // seed-rotated extra zones
   for (int k = 0; k < 2; k++) cz.push_back(Db::info((a.seed * 31 + k * 101 + 7) % Db::size()));
   std::vector<std::string> small = g_hostile
-      ? std::vector<std::string>{"y2005", "y2006", "y1997", "y2052", "sentinel", "y1999", "y2050", "int32min+1", "int32max", "y1872", "y2127", "badcomponents", "y2006jan1", "y2005dec31"}
-      : std::vector<std::string>{"y2005", "y2006", "y1997", "y2052", "sentinel", "y1999", "y2050", "y2006jan1", "y2005dec31", "y2050jan1", "y1999dec31"};
+      ? std::vector<std::string>{"y2005", "y2006", "y1997", "y2052", "sentinel", "y1999", "y2050", "int32min+1", "int32max", "y1872", "y2127", "badcomponents", "y2006jan1", "y2005dec31", "ymin-jan1", "ymax-dec31"}
+      : std::vector<std::string>{"y2005", "y2006", "y1997", "y2052", "sentinel", "y1999", "y2050", "y2006jan1", "y2005dec31", "y2050jan1", "y1999dec31", "ymin-jan1", "ymax-dec31"};
   std::vector<uint16_t> sa = arg_idx(small);
   auto mk_alpha = [&](int ntz, const std::vector<uint16_t>& args) {
     std::vector<Op> al;
@@ -236,7 +236,7 @@ template <class Db> void run_db(const Args& a, Counters& c, int& item) {
       Job j; j.cfg.kind = K_SHARED; j.cfg.zones = {cz[i], cz[i + 1], cz[i + 2]}; j.cfg.nslots = 0; j.depth = a.thorough ? 5 : 4; j.kname = "shared3"; j.alpha = mk_alpha(3, sa); j.salpha = mk_salpha(3); j.sdepth = a.getl("sdepth", 3); jobs.push_back(j);
     }
     // ---- W3: managers with N slots holding N+1 / N+2 zones
-    std::vector<uint16_t> ma = arg_idx(g_hostile ? std::vector<std::string>{"y2005", "y2006", "y1997", "sentinel", "int32max"} : std::vector<std::string>{"y2005", "y2006", "y1997", "sentinel", "y2006jan1"});
+    std::vector<uint16_t> ma = arg_idx(g_hostile ? std::vector<std::string>{"y2005", "y2006", "y1997", "sentinel", "int32max", "ymin-jan1"} : std::vector<std::string>{"y2005", "y2006", "y1997", "sentinel", "y2006jan1", "ymin-jan1"});
     std::vector<uint16_t> ma2 = arg_idx({"y2005", "y1997"});
     int maxN = a.thorough ? 4 : 3;
     for (int N = 1; N <= maxN; N++) for (int extra = 1; extra <= 2; extra++) {
@@ -324,6 +324,9 @@ int main(int argc, char** argv) {
   for (int y = 1999; y <= 2050; y++) { g_args.push_back(window_arg(y, true)); g_args.push_back(window_arg(y, false)); }
   g_args.push_back(year_arg(1997)); g_args.push_back(year_arg(2052));
   g_args.push_back(sentinel_arg());
+  // the smallest valid local date: the basic processor's "Jan 1 uses the previous year" step turns its year into the invalid-year sentinel
+  g_args.push_back(raw_arg("ymin-jan1", g_args[0].epoch, 1873, 1, 1, 0, 30, 0));
+  g_args.push_back(raw_arg("ymax-dec31", g_args[0].epoch, 2127, 12, 31, 23, 30, 0));
   if (g_hostile) {
     g_args.push_back(raw_arg("int32min+1", (int64_t)INT32_MIN + 1, 1931, 12, 13, 20, 45, 53));
     g_args.push_back(raw_arg("int32max", INT32_MAX, 2068, 1, 19, 3, 14, 7));
